@@ -1,4 +1,5 @@
 import TurVerif.Lemmas.Sieve4
+import TurVerif.Model.CacheMiss
 /-!
 C35  The page cache never evicts pinned pages or mixes contents; shards respect their capacity;
 budget accounting.
@@ -283,5 +284,131 @@ theorem clear_evicts_pinned_counterexample :
     ∃ c c', Cache.new 64 none = some c ∧ c.getOrInsert ⟨0, 0⟩ true 7 = (c', .inserted) ∧
       (c'.findEntry ⟨0, 0⟩).map (·.pin) = some 1 ∧ c'.clear.findEntry ⟨0, 0⟩ = none := by
   refine ⟨_, _, rfl, rfl, ?_, ?_⟩ <;> decide
+
+end TurVerif.C35
+
+/-! ## The miss path of `get_or_insert` is NOT one critical section: read-locked lookup, then
+write-locked re-check + insert (`TurVerif.CacheMiss`, one key, any number of threads).  The
+sequential model above treats the call as atomic; these theorems are what justifies that. -/
+namespace TurVerif.C35
+open TurVerif.CacheMiss
+
+theorem doneCount_set (l : List Pc) (tid : Nat) (old new : Pc) (h : l[tid]? = some old) :
+    ((l.set tid new).filter (· == Pc.done)).length + (if old = Pc.done then 1 else 0)
+      = (l.filter (· == Pc.done)).length + (if new = Pc.done then 1 else 0) := by
+  induction l generalizing tid with
+  | nil => simp at h
+  | cons a rest ih =>
+    cases tid with
+    | zero =>
+      simp only [List.getElem?_cons_zero, Option.some.injEq] at h
+      subst h
+      simp only [List.set_cons_zero, List.filter_cons]
+      by_cases ha : a = Pc.done <;> by_cases hn : new = Pc.done <;> simp [ha, hn]
+    | succ t =>
+      simp only [List.getElem?_cons_succ] at h
+      have := ih t h
+      simp only [List.set_cons_succ, List.filter_cons]
+      by_cases ha : a = Pc.done <;> simp [ha] <;> omega
+
+/-- invariant of the re-checking variant: at most one entry for the key, `init` ran as often as
+there are entries, and the entry's pin count is the number of threads that have returned -/
+def MissInv (s : State) : Prop :=
+  s.recheck = true ∧
+  ((s.entries = [] ∧ doneCount s = 0 ∧ s.inits = 0) ∨ (s.entries = [doneCount s] ∧ s.inits = 1))
+
+theorem missInv_init (n : Nat) : MissInv (CacheMiss.init true n) := by
+  refine ⟨rfl, Or.inl ⟨rfl, ?_, rfl⟩⟩
+  simp [doneCount, CacheMiss.init]
+
+theorem missInv_step (s s' : State) (tid : Nat) (h : MissInv s) (hs : step s tid = some s') :
+    MissInv s' := by
+  obtain ⟨hr, hcase⟩ := h
+  unfold step at hs
+  split at hs
+  · cases hs
+  · -- start
+    rename_i hpc
+    have hset := fun new => doneCount_set s.threads tid Pc.start new hpc
+    split at hs
+    · rename_i he
+      injection hs with hs; subst hs
+      refine ⟨hr, ?_⟩
+      have := hset Pc.missed
+      simp at this
+      rcases hcase with ⟨_, hd, hi⟩ | ⟨hen, _⟩
+      · refine Or.inl ⟨he, ?_, hi⟩
+        show (List.filter (· == Pc.done) (s.threads.set tid Pc.missed)).length = 0
+        rw [this]; exact hd
+      · rw [he] at hen; cases hen
+    · rename_i he
+      injection hs with hs; subst hs
+      refine ⟨hr, ?_⟩
+      have := hset Pc.done
+      simp at this
+      rcases hcase with ⟨hen, _, _⟩ | ⟨hen, hi⟩
+      · exact absurd hen he
+      · right
+        refine ⟨?_, hi⟩
+        show pinHead s.entries = [(List.filter (· == Pc.done) (s.threads.set tid Pc.done)).length]
+        rw [hen, this]; rfl
+  · -- missed
+    rename_i hpc
+    have hset := fun new => doneCount_set s.threads tid Pc.missed new hpc
+    have hd := hset Pc.done
+    simp at hd
+    split at hs
+    · rename_i hc
+      injection hs with hs; subst hs
+      refine ⟨hr, ?_⟩
+      rcases hcase with ⟨hen, _, _⟩ | ⟨hen, hi⟩
+      · exact absurd hen hc.2
+      · right
+        refine ⟨?_, hi⟩
+        show pinHead s.entries = [(List.filter (· == Pc.done) (s.threads.set tid Pc.done)).length]
+        rw [hen, hd]; rfl
+    · rename_i hc
+      injection hs with hs; subst hs
+      refine ⟨hr, ?_⟩
+      have hemp : s.entries = [] := by
+        by_cases he : s.entries = []
+        · exact he
+        · exact absurd ⟨hr, he⟩ hc
+      rcases hcase with ⟨_, hd0, hi⟩ | ⟨hen, _⟩
+      · right
+        refine ⟨?_, by simp [hi]⟩
+        show 1 :: s.entries = [(List.filter (· == Pc.done) (s.threads.set tid Pc.done)).length]
+        rw [hemp, hd]
+        have : (List.filter (· == Pc.done) s.threads).length = 0 := hd0
+        rw [this]
+      · rw [hemp] at hen; cases hen
+  · cases hs
+
+theorem missInv_run (s : State) (sched : List Nat) (h : MissInv s) : MissInv (run s sched) := by
+  induction sched generalizing s with
+  | nil => exact h
+  | cons t rest ih =>
+    simp only [run]
+    cases hs : step s t with
+    | none => simpa using ih s h
+    | some s' => exact ih s' (missInv_step s s' t h hs)
+
+/-- HEADLINE (re-check under the write lock): for every number of threads and every schedule the key
+is cached at most once, `init` ran at most once, and the entry is pinned exactly once per thread
+that has returned -/
+theorem miss_path_single_entry (n : Nat) (sched : List Nat) :
+    let s := run (CacheMiss.init true n) sched
+    s.entries.length ≤ 1 ∧ s.inits ≤ 1 ∧ (∀ p ∈ s.entries, p = doneCount s) := by
+  have h := missInv_run _ sched (missInv_init n)
+  rcases h.2 with ⟨he, _, hi⟩ | ⟨he, hi⟩
+  · simp [he, hi]
+  · refine ⟨by simp [he], by simp [hi], ?_⟩
+    intro p hp; rw [he] at hp; simpa using hp
+
+/-- without the re-check two threads that both missed insert the key twice: two entries, `init`
+ran twice, each entry pinned once although the index can only reach the newer one -/
+theorem miss_path_without_recheck_counterexample :
+    let s := run (CacheMiss.init false 2) [0, 1, 0, 1]
+    s.entries = [1, 1] ∧ s.inits = 2 ∧ doneCount s = 2 := by decide
 
 end TurVerif.C35
